@@ -502,7 +502,87 @@ class FillPeriodic(_SupercellConcrete, Contract):
                     yield sup.copy(), (ci, wy)
 
 
+def _key(text):
+    import ast as _ast
+    return _ast.unparse(_ast.parse(text, mode='eval').body)
+
+
+class EquivalenceMap(_SupercellConcrete, Contract):
+    """Supercell.equivalencemap, soundness (C27): whatever operation and mapping it returns, the operation carries the occupation of
+    `self` onto that of `other` and the mapping satisfies the documented reorder relation.
+
+    Under contract is the function from `mapping = None` on (the search loop, the occupation test, the construction of the mapping).
+    Dropped prefix (statements 1-2 of the body: the defect-count pre-filter): it only returns (None, None) early -- which satisfies the
+    soundness postcondition trivially -- and chooses the lists `shortset` / `matchset`, which are used in one expression only, the
+    short-list filter `any(indexmap[i] not in matchset for i in shortset)` that skips candidates: it is abstracted to an arbitrary
+    boolean (skipping more or fewer candidates cannot make a returned answer wrong).  Completeness (an equivalent pair is found) is
+    therefore NOT part of what is proved; it is checked at run time against brute force.
+    Abstracted further: `self.G` (a frozenset of GroupOp) -> ghost list g_maps of the site permutations indexmap[0] in iteration order;
+    `np.any(gocc != other.occ)` -> its elementwise meaning; `gclist.index(index)` -> the specification of list.index on the path where
+    it does not raise (partial correctness: a ValueError is not a wrong answer)."""
+    relpath, qualname = 'onsager/supercell.py', 'Supercell.equivalencemap'
+    self_shape = SELF
+    params = {'other': {'occ': 'seq_int', 'chemorder': 'seq2_int'}}
+    ghost_params = {'g_maps': 'seq2_int'}
+    modifies = ()
+    body_from = 'mapping = None'
+    loop_keeps = {2: ('mapping',)}
+    local_shapes = {'mapping': 'seq2_int'}
+    min_obligations = 8
+    abstractions = {
+        _key('self.G'): ('expr', lambda s: s._ps.env['g_maps']),
+        _key('g.indexmap[0]'): ('expr', lambda s: s._ps.env['g']),
+        _key('any(indexmap[i] not in matchset for i in shortset)'): ('bool', lambda v, s: True),
+        _key('np.any(gocc != other.occ)'): ('expr', lambda s: exists(0, s.v['gocc'].len, lambda i: s.v['gocc'][i] != s.v['other'].occ[i], 'emx')),
+        _key('gclist.index(index)'): ('int', lambda v, s: And(v >= 0, v < s.v['gclist'].len, lambda: s.v['gclist'][v] == s.v['index'])),
+    }
+    ABSTRACTED = ['statements before `mapping = None` dropped (early `return None, None` exits and the choice of shortset / matchset)',
+                  '`any(indexmap[i] not in matchset for i in shortset)` -> arbitrary boolean', '`self.G` -> ghost list of site permutations',
+                  '`np.any(gocc != other.occ)` -> exists i. gocc[i] != other.occ[i]', '`gclist.index(index)` -> specification of list.index without the raising path']
+
+    def pre(self, s):
+        o, maps, L = s.v['other'], s.v['g_maps'], s.self.occ.len
+        return And(WFall(s.self), o.occ.len == L, o.chemorder.len == s.self.chemorder.len, maps.len >= 0,
+                   lambda: forall(0, maps.len, lambda a: maps.lenof(a) == L, 'em_a'),
+                   # every operation of a supercell carries a permutation of the sites: in range and one-to-one
+                   lambda: forall2(0, maps.len, lambda a: 0, lambda a: L, lambda a, i: And(maps.at(a, i) >= 0, maps.at(a, i) < L), 'em_ai'),
+                   lambda: forall(0, maps.len, lambda a: forall2(0, L, lambda i: i + 1, lambda i: L, lambda i, j: maps.at(a, i) != maps.at(a, j), 'em_ij'), 'em_a2'))
+
+    def inv_search(cur, k, old):
+        return {'buffer-length': cur.v['gocc'].len == old.self.occ.len,
+                'self-unchanged': And(seq_eq(cur.self.occ, old.self.occ), seq2_eq(cur.self.chemorder, old.self.chemorder))}
+
+    def inv_apply(cur, k, old):
+        m, gocc, occ = cur.v['indexmap'], cur.v['gocc'], old.self.occ
+        return {'buffer-length': gocc.len == occ.len,
+                'self-unchanged': And(seq_eq(cur.self.occ, old.self.occ), seq2_eq(cur.self.chemorder, old.self.chemorder)),
+                'images-so-far-hold-the-occupation': forall(0, k, lambda i: gocc[m[i]] == occ[i], 'em_img')}
+
+    def inv_mapping(cur, k, old):
+        mp, go, oc = cur.v['mapping'], cur.v['gorder'], old.v['other'].chemorder
+        return {'rows-so-far': And(mp.len == k, lambda: forall(0, k, lambda c: mp.lenof(c) == oc.lenof(c), 'em_ml')),
+                'entries-so-far-point-at-the-listed-site': forall2(0, k, lambda c: 0, lambda c: oc.lenof(c),
+                        lambda c, i: And(mp.at(c, i) >= 0, mp.at(c, i) < go.lenof(c), lambda: go.at(c, mp.at(c, i)) == oc.at(c, i)), 'em_me'),
+                'self-unchanged': And(seq_eq(cur.self.occ, old.self.occ), seq2_eq(cur.self.chemorder, old.self.chemorder))}
+
+    loops = {2: inv_search, 3: inv_apply, 4: inv_mapping}
+
+    def post(self, old, new, result):
+        g, mp = result
+        if g is None:
+            return {'no-answer-is-a-pair-of-None': mp is None}
+        o, me = old.v['other'], old.self
+        return {
+            'operation-is-one-of-the-group': exists(0, old.v['g_maps'].len, lambda a: seq_eq(g, old.v['g_maps'].row(a)), 'em_in'),
+            'operation-carries-the-occupation-of-self-onto-other': forall(0, me.occ.len, lambda i: o.occ[g[i]] == me.occ[i], 'em_occ'),
+            'mapping-satisfies-the-reorder-relation': And(mp.len == o.chemorder.len, lambda: forall2(0, o.chemorder.len, lambda c: 0, lambda c: o.chemorder.lenof(c),
+                        lambda c, i: And(mp.lenof(c) == o.chemorder.lenof(c), mp.at(c, i) >= 0, mp.at(c, i) < me.chemorder.lenof(c),
+                                         lambda: g[me.chemorder.at(c, mp.at(c, i))] == o.chemorder.at(c, i)), 'em_map')),
+        }
+
+
 C28_CONTRACTS = [SetOccC, IMul, SaneC, Reorder, FillPeriodic]
+C27_CONTRACTS = [EquivalenceMap]
 ASSUMPTIONS = [
     'python ints are mathematical integers; numpy integer arrays do not overflow',
     'inner lists of chemorder are distinct objects (no aliasing between rows): checked syntactically -- every assignment to self.chemorder in class Supercell must be a list comprehension / fresh list / the saved previous value',
